@@ -1,0 +1,17 @@
+//go:build verif
+
+// Contracts for package sliceu, checked by /verif (govc). Comment-only: this
+// file declares nothing, so the verif tag cannot change behaviour.
+package sliceu
+
+//@ func SearchUnique
+//@   property C07 C19
+//@   requires forall(0, len(x), func(j int) bool { return forall(0, len(x), func(k int) bool {
+//@            return j < k ==> (cmp(x[j], target) < 0 || cmp(x[k], target) > 0) }) })
+//@   ensures result1 ==> 0 <= result0 && result0 < len(x) && cmp(x[result0], target) == 0
+//@   ensures !result1 ==> forall(0, len(x), func(j int) bool { return cmp(x[j], target) != 0 })
+//@   loop 0:
+//@     invariant 0 <= low && low <= high && high <= len(x)
+//@     invariant forall(0, low, func(j int) bool { return cmp(x[j], target) < 0 })
+//@     invariant forall(high, len(x), func(j int) bool { return cmp(x[j], target) > 0 })
+//@     decreases high - low
